@@ -48,6 +48,9 @@ pub struct Scenario {
     /// build lexers with `partial_with_extras` / `with_extras` (what a consumer that carries extras uses) instead of
     /// `new_partial` / `new`
     pub with_extras: bool,
+    /// what the consumer does with its lexer handle between items (corpus::OPS_*): nothing, identity morph, continue on a
+    /// clone, iterate through spanned(), clone the spanned iterator
+    pub ops: u8,
     pub events: Vec<Ev>,
 }
 
@@ -89,6 +92,7 @@ impl Scenario {
             "driver": if self.per_item { "A" } else { "B" },
             "exact_alloc": self.exact_alloc,
             "constructor": if self.with_extras { "partial_with_extras" } else { "new_partial" },
+            "handle_ops": self.ops,
             "events": self.events.iter().map(|e| e.to_json()).collect::<Vec<_>>(),
         })
     }
@@ -99,6 +103,7 @@ impl Scenario {
             per_item: v.get("driver")?.as_str()? == "A",
             exact_alloc: v.get("exact_alloc")?.as_bool()?,
             with_extras: v.get("constructor").and_then(|c| c.as_str()) == Some("partial_with_extras"),
+            ops: v.get("handle_ops").and_then(|o| o.as_u64()).unwrap_or(0) as u8,
             events: v.get("events")?.as_array()?.iter().map(Ev::from_json).collect::<Option<Vec<_>>>()?,
         })
     }
@@ -451,7 +456,7 @@ impl<'a> Driver<'a> {
         if self.sc.per_item {
             // variant A: a fresh lexer per item, on the rest of the valid buffer
             loop {
-                let out = self.def.lex_carry(&view[pos..], partial, self.sc.with_extras, 0, 1, self.carry);
+                let out = self.def.lex_ops(&view[pos..], partial, self.sc.with_extras, 0, 1, self.carry, self.sc.ops);
                 self.stats.steps += out.calls as u64;
                 round_items += 1;
                 if round_items > cap {
@@ -496,7 +501,7 @@ impl<'a> Driver<'a> {
             }
         } else {
             // variant B: one lexer per fill
-            let out = self.def.lex_carry(view, partial, self.sc.with_extras, 0, cap, self.carry);
+            let out = self.def.lex_ops(view, partial, self.sc.with_extras, 0, cap, self.carry, self.sc.ops);
             self.stats.steps += out.calls as u64;
             if out.none_span.is_none() {
                 fail!("L1", "runaway", "definition {}: more than {} items from a {}-byte buffer", self.def.name, cap, vlen);
@@ -748,6 +753,7 @@ fn exec(def: &DefInfo, rf: &Ref, sc: &Scenario) -> Outcome_ {
         buf: Vec::new(), base: 0, resume: 0, delivered: 0, high_water: 0, committed: Vec::new(), carry: 0, none_points: Vec::new(), crash_after: None,
         stats: Stats::default(),
     };
+    d.stats.hit(["op_handle_untouched_between_items", "op_handle_identity_morph_between_items", "op_handle_continue_on_clone", "op_handle_iterate_through_spanned", "op_handle_clone_of_spanned_iterator"][(sc.ops as usize).min(4)]);
     let r = catch(|| {
         d.set_oracle();
         d.compute_ref_ok();
@@ -897,7 +903,9 @@ fn scenario_for(world: &World, seed: u64, index: u64, max_len: usize) -> (usize,
     let per_item = rng.chance(1, 2);
     let exact_alloc = rng.chance(1, 2);
     let with_extras = rng.chance(1, 3);
-    let sc = Scenario { def: def.name.to_string(), input, per_item, exact_alloc, with_extras, events };
+    // handle operations between items: mostly none, otherwise one of the four kinds
+    let ops = if rng.chance(2, 3) { corpus::OPS_NONE } else { 1 + rng.below(4) as u8 };
+    let sc = Scenario { def: def.name.to_string(), input, per_item, exact_alloc, with_extras, ops, events };
     (di, sc)
 }
 
@@ -1004,6 +1012,9 @@ fn minimise(world: &World, sc: &Scenario, v: &Violation) -> (Scenario, Violation
             if budget > 0 { budget -= 1; if fails(&t) { best = t.clone(); } }
             let mut t = best.clone();
             t.with_extras = false;
+            if budget > 0 { budget -= 1; if fails(&t) { best = t; } }
+            let mut t = best.clone();
+            t.ops = corpus::OPS_NONE;
             if budget > 0 { budget -= 1; if fails(&t) { best = t; } }
         }
         // smaller read sizes are not simpler; but merge: Read(a),Read(b) -> Read(a+b)
